@@ -119,8 +119,11 @@ func vpH_c01_tamper() {
 		}
 	}
 	signed := mkStep()
+	// unknown keys of a matrix built in code may spell the names of real fields;
+	// the real fields are what is signed
+	decoy := vpParam("matrix") != 0 && vpBool()
 	if vpParam("matrix") != 0 {
-		signed.Matrix = vpMixedMatrix("l", "u")
+		signed.Matrix = vpDecoyed(vpMixedMatrix("l", "u"), decoy)
 	}
 	penv := map[string]string{"P": pv}
 
@@ -150,7 +153,7 @@ func vpH_c01_tamper() {
 	// the presented world
 	pres := mkStep()
 	if vpParam("matrix") != 0 {
-		pres.Matrix = vpMixedMatrix("l", "u")
+		pres.Matrix = vpDecoyed(vpMixedMatrix("l", "u"), decoy)
 	}
 	presRepo := r
 	venv := map[string]string{"P": pv, "UNRELATED": "u"}
@@ -233,14 +236,14 @@ func vpH_c01_tamper() {
 		pres.Plugins[0].Config = map[string]any{"k" + x: cv}
 	case 24: // a named dimension changed next to the anonymous one
 		vpAssume(x != "l")
-		pres.Matrix = vpMixedMatrix(x, "u")
+		pres.Matrix = vpDecoyed(vpMixedMatrix(x, "u"), decoy)
 	case 25: // the anonymous dimension changed next to a named one
 		vpAssume(x != "u")
-		pres.Matrix = vpMixedMatrix("l", x)
+		pres.Matrix = vpDecoyed(vpMixedMatrix("l", x), decoy)
 	case 26: // a named dimension removed
-		pres.Matrix = &pipeline.Matrix{Setup: pipeline.MatrixSetup{"": {"u", "i"}}}
+		pres.Matrix = vpDecoyed(&pipeline.Matrix{Setup: pipeline.MatrixSetup{"": {"u", "i"}}, Adjustments: vpMixedMatrix("l", "u").Adjustments}, decoy)
 	case 27: // an adjustment's skip flag flipped
-		pres.Matrix = vpMixedMatrix("l", "u")
+		pres.Matrix = vpDecoyed(vpMixedMatrix("l", "u"), decoy)
 		pres.Matrix.Adjustments[0].Skip = false
 	}
 	verr := Verify(ctx, rec, ks, &CommandStepWithInvariants{CommandStep: *pres, RepositoryURL: presRepo}, WithEnv(venv))
@@ -250,6 +253,17 @@ func vpH_c01_tamper() {
 		vpAssert(verr != nil, "any single semantic change to the step, env, repository, signature record or key makes verification fail")
 	}
 	vpAssert(len(venv) <= 2 && signed.Command == c, "verification does not write the env map")
+}
+
+// vpDecoyed adds unknown keys that are spelled like the real fields.
+func vpDecoyed(m *pipeline.Matrix, decoy bool) *pipeline.Matrix {
+	if decoy {
+		m.RemainingFields = map[string]any{"setup": "decoy", "adjustments": "decoy"}
+		for _, a := range m.Adjustments {
+			a.RemainingFields = map[string]any{"with": "decoy", "skip": "decoy"}
+		}
+	}
+	return m
 }
 
 // vpMixedMatrix: a matrix that mixes the anonymous dimension with a named one and has an adjustment.
